@@ -164,6 +164,21 @@ def run(facts, rep, tier, ctx):
             c09.resolver_rules(facts, A, wa, "R03.5r")
     except ImportError:
         rep.note("overlay rules (C09) not available yet")
+    # R03.9 a view rooted inside another filesystem is well-formed because it answers what that filesystem answers: the altroot's
+    # observers hand the inner call's result on unchanged — an `exists` that says "the root is always there" lets a stack on top
+    # (an overlay with that altroot as an optional layer) list a root whose layer directory is gone (C07 R07.3)
+    from . import c07 as _c07r
+    from ..panics import Discharger as _D3, load_records as _lr3
+    import os as _os3
+    D3 = _D3(facts, _lr3(_os3.path.join(ctx["V"], "rules", "panic_records.json")))
+    for w9 in (ws, wa):
+        if w9.present():
+            scr9 = Report("d")
+            _c07r.delegation(facts, scr9, w9, "D", D3)
+            for o in scr9.obligations:
+                d9 = o["key"].split("|")[2]
+                if d9.split(":")[0] in ("exists", "metadata", "read_dir"):
+                    rep.ob(("A/" if w9.asyncw else "") + "R03.9", o["fn"], d9, o["ok"], o["detail"], o["loc"])
     # R03.8 on disk the tree is well-formed because the OS keeps it so — as long as the observers describe what the OS means: the
     # physical metadata follows links like exists/read_dir/create_dir do (an lstat makes a linked, non-empty directory "a file")
     from .. import physrules as _ph
